@@ -89,6 +89,9 @@ def make_step(height, heur, ND=2, prop="C19"):
             outcome = "returned"
         except Cut:
             outcome = "pushed:%d" % (int(st[0]) - top)
+            if int(st[0]) > height - 2:
+                # the consistency algorithm is now entered at a level from which the shaving probe cannot push
+                _record(E, prop, "no-room-left-for-the-shaving-probe", f"solve_one/{heur}", "after the choice the top is %d, the last level is %d" % (int(st[0]), height - 1), height=height, top=top, heuristic=heur, shaving=True, nvars=height)
         except Obligation as o:
             outcome = "obligation:" + o.kind
             _record(E, prop, "stack-" + o.kind, f"solve_one/{heur}", o, height=height, top=top, heuristic=heur)
@@ -181,14 +184,15 @@ def make_chain(height, nvars, heur, shaving=False, prop="C19"):
         lo = [z3.Int(f"lo{i}") for i in range(nvars)]
         w = [z3.Int(f"w{i}") for i in range(nvars)]
         for i in range(nvars):
-            E.solver.add(lo[i] >= -5, lo[i] <= 5, w[i] >= 0, w[i] <= 1)
-            if heur == "min_cost":  # contract: the cost table [[1, 1]] * nvars covers the values {0, 1}
+            # mid_value / min_cost push two levels only for an interior value: width 2 (three values)
+            E.solver.add(lo[i] >= -5, lo[i] <= 5, w[i] >= 0, w[i] <= (2 if heur in ("mid_value", "min_cost") else 1))
+            if heur == "min_cost":  # contract: the cost table covers the values {0, 1, 2}; cheapest value interior
                 E.solver.add(lo[i] == 0)
         pb = Problem([(SymInt(lo[i]), SymInt(lo[i] + w[i])) for i in range(nvars)])
         sols = []
         outcome = None
         try:
-            s = BS.BacktrackSolver(pb, consistency_alg_idx=CA.CONSISTENCY_ALG_SHAVING if shaving else CA.CONSISTENCY_ALG_BC, dom_heuristic_idx=getattr(H, "DOM_HEURISTIC_" + heur.upper()), dom_heuristic_params=[[1, 1]] * nvars if heur == "min_cost" else [[]], stack_max_height=height)
+            s = BS.BacktrackSolver(pb, consistency_alg_idx=CA.CONSISTENCY_ALG_SHAVING if shaving else CA.CONSISTENCY_ALG_BC, dom_heuristic_idx=getattr(H, "DOM_HEURISTIC_" + heur.upper()), dom_heuristic_params=[[2, 1, 2]] * nvars if heur == "min_cost" else [[]], stack_max_height=height)
             for x in s.solve():
                 sols.append(x.tolist())
             outcome = "enumerated"
